@@ -1805,7 +1805,9 @@ def _getitem(self, item: NestedKey) -> Any:
 
     """
     if isinstance(item, str) or (
-        isinstance(item, tuple) and all(isinstance(_item, str) for _item in item)
+        isinstance(item, tuple)
+        and len(item)  # the empty tuple is an index (the whole object), not a key
+        and all(isinstance(_item, str) for _item in item)
     ):
         raise ValueError(f"Invalid indexing arguments: {item}.")
     # tensor_res = super(type(self), self).__getattribute__("_tensordict")[item]
